@@ -62,6 +62,9 @@ struct Scenario {
     /// Some(ms): a never-true wait with this deadline; None: far-future deadline
     short_deadline_ms: Option<u64>,
     waiter_delay_spins: u32,
+    /// never-true waits only: one extra thread keeps issuing wakes that cannot satisfy the wait (spurious wakes,
+    /// wrong-file and non-advancing acks) every quarter deadline until the waiter returns, for at most 75 deadlines
+    steady_unrelated_wakes: bool,
 }
 
 struct SchedLog {
@@ -152,6 +155,7 @@ fn gen_scenario(r: &mut Rng, miri: bool) -> Scenario {
         signallers,
         short_deadline_ms: if never_true { Some(if miri { 50 } else { 15 + r.below(30) }) } else { None },
         waiter_delay_spins: if miri { 0 } else { r.below(4000) as u32 },
+        steady_unrelated_wakes: never_true && r.chance(1, 3),
     }
 }
 
@@ -177,9 +181,11 @@ fn run_scenario(s: &Scenario, miri: bool, hb: Option<&Heartbeat>) -> Outcome {
     let log = Arc::new(SchedLog { clock: AtomicU64::new(0), ev: Mutex::new(vec![]) });
     let far = if miri { Duration::from_secs(1_000_000) } else { Duration::from_secs(600) };
     let (tx, rx) = mpsc::channel::<(WaitRes, bool, Duration)>();
+    let waiter_done = Arc::new(std::sync::atomic::AtomicBool::new(false));
     // waiter
     let w = {
         let (ctl, log, s2) = (ctl.clone(), log.clone(), s.clone());
+        let waiter_done = waiter_done.clone();
         std::thread::spawn(move || {
             CUR.with(|c| *c.borrow_mut() = Some(log));
             spin(s2.waiter_delay_spins);
@@ -199,6 +205,7 @@ fn run_scenario(s: &Scenario, miri: bool, hb: Option<&Heartbeat>) -> Outcome {
                 },
             };
             let now = Instant::now();
+            waiter_done.store(true, Ordering::SeqCst);
             let _ = tx.send((res, now >= deadline, now.duration_since(start)));
             CUR.with(|c| *c.borrow_mut() = None);
         })
@@ -241,6 +248,26 @@ fn run_scenario(s: &Scenario, miri: bool, hb: Option<&Heartbeat>) -> Outcome {
             }
         }));
     }
+    let postponed = Arc::new(std::sync::atomic::AtomicBool::new(false));
+    if let (true, Some(ms)) = (s.steady_unrelated_wakes, s.short_deadline_ms) {
+        let (ctl, done, postponed) = (ctl.clone(), waiter_done.clone(), postponed.clone());
+        hs.push(std::thread::spawn(move || {
+            let step = Duration::from_millis((ms / 4).max(1));
+            for k in 0..300u32 {
+                if done.load(Ordering::SeqCst) {
+                    return;
+                }
+                match k % 3 {
+                    0 => ctl.verif_notify_all(),
+                    1 => ctl.record_ack(9, u64::MAX),
+                    _ => ctl.record_ack(0, 0),
+                }
+                std::thread::sleep(step);
+            }
+            // 75 deadlines of unrelated wakes later the wait has still not timed out
+            postponed.store(!done.load(Ordering::SeqCst), Ordering::SeqCst);
+        }));
+    }
     for h in hs {
         let _ = h.join();
     }
@@ -261,6 +288,14 @@ fn run_scenario(s: &Scenario, miri: bool, hb: Option<&Heartbeat>) -> Outcome {
         let got = rx.recv_timeout(Duration::from_secs(if miri { 3_000_000 } else { 20 }));
         let _ = w.join();
         let (class, parks) = classify(&log);
+        if postponed.load(Ordering::SeqCst) {
+            let stalled = hb.map(|h| h.max_gap_ms() > 1000).unwrap_or(false);
+            return if stalled {
+                Outcome { violation: None, inconclusive: Some("timeout late under steady wakes but the machine stalled".into()), class, parks }
+            } else {
+                Outcome { violation: Some(("C12:timeout-postponed-by-unrelated-wakes".into(), describe(&format!("a wait with a {ms} ms deadline whose condition never became true had not returned after 75 deadlines while unrelated wakes (spurious, wrong-file and non-advancing acks) kept arriving every {} ms; it returned {:?} only after they stopped", (ms / 4).max(1), got.as_ref().map(|g| &g.0))))), inconclusive: None, class, parks }
+            };
+        }
         return match got {
             Ok((WaitRes::Timeout, after_deadline, took)) => {
                 if !after_deadline {
